@@ -21,6 +21,7 @@ type Env struct {
 	depth     int
 	noInv     bool // under a binder: loads must not be named by constants
 	triggers  *[]string // candidate e-matching patterns collected under a quantifier
+	binderInvs *[]string // type invariants of the values read under the binder (guards of the quantified body)
 	bound     map[string]bool
 	ghostOverride map[string]string // call-log ghosts bound by the caller (higher-order contracts)
 	byRef     map[string]types.Type // captured variables: the name denotes the content of the cell
@@ -248,7 +249,9 @@ func (fc *FnCtx) eval(env *Env, e *Expr) (Val, error) {
 		}
 		var decl []string
 		var trig []string
+		var invs []string
 		n.triggers = &trig
+		n.binderInvs = &invs
 		n.bound = map[string]bool{}
 		for _, v := range strings.Split(e.Name, ",") {
 			fc.q.fresh++
@@ -262,6 +265,7 @@ func (fc *FnCtx) eval(env *Env, e *Expr) (Val, error) {
 			return Val{}, err
 		}
 		bt := body.T
+		_ = invs
 		if len(trig) > 0 && e.Op == "forall" && len(decl) == 1 {
 			// one single-term pattern per distinct indexed read
 			seen := map[string]bool{}
@@ -302,7 +306,16 @@ func (fc *FnCtx) gvarGet(st *State, name string) string {
 
 func (fc *FnCtx) evalLoad(env *Env, addr Val, t types.Type, hint string) Val {
 	if env.noInv {
-		return fc.loadAt(env.cur, addr, t)
+		v := fc.loadAt(env.cur, addr, t)
+		// under a binder the value cannot be named by a constant: its type invariant is stated for the whole array version instead
+		if env.binderInvs != nil && v.SV == nil && addr.Local == nil {
+			arr := addr.Arr
+			if arr == "" {
+				arr = fc.g.ti.cellArray(t)
+			}
+			fc.arrayTypingAxiom(env.cur, arr, t)
+		}
+		return v
 	}
 	return fc.loadAtInv(env.cur, addr, t, hint)
 }
@@ -461,6 +474,8 @@ func (fc *FnCtx) selectField(env *Env, x Val, name string) (Val, error) {
 			fc.q.assert(implies(env.cur.reach, eq(c, cur.T)))
 			fc.typeInvB(env.cur, c, ft, svst.boundOf(ti.fieldArray(t, idx)))
 			cur.T = c
+		} else if cur.SV == nil && svst != nil && env.noInv && env.binderInvs != nil {
+			fc.arrayTypingAxiom(svst, ti.fieldArray(t, idx), ft)
 		}
 	}
 	_ = ti
@@ -846,4 +861,46 @@ func (fc *FnCtx) evalCall(env *Env, e *Expr) (Val, error) {
 	}
 	_ = ti
 	return Val{T: t, Typ: sortToType(sig.Res)}, nil
+}
+
+// arrayTypingAxiom: every cell of the array versions occurring in the current term of arr holds a well-typed value
+// (reference age bound, allocation typing, slice/interface shape). It is the per-read type invariant of loadAtInv,
+// stated once for the whole array so that it also covers reads under quantifiers.
+func (fc *FnCtx) arrayTypingAxiom(st *State, arr string, t types.Type) {
+	srt := fc.g.ti.sortOf(t)
+	if srt != sRef && srt != sSlice && srt != sIface {
+		return
+	}
+	as, ok := fc.g.arrSort[arr]
+	if !ok {
+		return
+	}
+	bound := st.boundOf(arr)
+	var visit func(term string, depth int)
+	seen := map[string]bool{}
+	visit = func(term string, depth int) {
+		for _, c := range fc.symbolsOf(term) {
+			if seen[c] || fc.q.declared[c] != as {
+				continue
+			}
+			seen[c] = true
+			if body, isDef := fc.q.defined[c]; isDef {
+				if depth < 8 {
+					visit(body, depth+1)
+				}
+				continue
+			}
+			key := c + "|" + bound
+			if fc.q.typedArr[key] {
+				continue
+			}
+			f := fc.typeInvFormula("(select "+c+" ar)", t, bound)
+			if f == "true" {
+				continue
+			}
+			fc.q.typedArr[key] = true
+			fc.q.assert(fmt.Sprintf("(forall ((ar Ref)) (! %s :pattern ((select %s ar))))", f, c))
+		}
+	}
+	visit(st.get(arr), 0)
 }
